@@ -140,6 +140,19 @@ pub fn trades_value(trades: &[Trade]) -> Value {
     Value::Array(trades.iter().map(trade_tuple).collect())
 }
 
+/// The key under which each order entry was inserted into its side, as the JSON snapshot shows it
+/// ([side, price key, key time]), in the specification's number system: [price key, key time] with
+/// bids keyed by MaxPrice - price (BookImpl.tla).
+pub fn keys_value<const L: usize>(b: &OrderBook<L>) -> Vec<Value> {
+    let v = match serde_json::to_value(b) { Ok(v) => v, Err(_) => return vec![] };
+    v["orders"].as_array().map(|a| a.iter().map(|e| {
+        let k = &e["key"];
+        let pk = k[1].as_u64().unwrap_or(0) as u32;
+        let spk = if k[0] == "Bid" { SPEC_MAX_PRICE - price_s(u32::MAX - pk) } else { price_s(pk) };
+        json!([spk, k[2]])
+    }).collect()).unwrap_or_default()
+}
+
 /// `Proj(b)` of the real book.
 pub fn book_proj<const L: usize>(b: &OrderBook<L>) -> Value {
     json!({
